@@ -72,6 +72,15 @@ CHECKS = {
         'real check_response over option grids with re.fullmatch verdicts supplied to the model.',
    note=PROOF_NOTE + ' The regex engine and full Unicode lower-casing are outside the model (parameters; ASCII+Latin-1 executable instance). The characterisation "non-whitespace characters are preserved in order" and strip\'s end condition are checked structurally on every correspondence case, not yet proved.',
    technique='Lean 4 proof (list recursion on the cleaning pipeline, decision table of check_response) + exhaustive flag-grid correspondence', design='§6 C18'),
+ 'C13': dict(
+   text='gen_symbols_samples (pruned constants, independent draws, the fixed-point loop over dependents with its progress check, the undefined-then-circular diagnosis), numbered_vars_regexp / generate_variable_list and construct_constants modelled literally over '
+        'insertion-ordered dictionaries, for arbitrary values and arbitrary dependent evaluators that read only the variables their formula uses; proved for every dependency structure and every declaration order: on success the sample defines exactly the '
+        'unshadowed constants, the independent symbols and the dependents, never overwrites a draw, and every dependent equals its formula evaluated on the final sample; the values and success/failure do not depend on the declaration order; '
+        'the loop never needs more passes than dependents and fails only after a pass without progress, with exactly the undefined names or the mutually waiting dependents reported; variables shadow constants; the numbered-variable matcher accepts exactly head_{n} with n a canonical integer and the instance shares its head\'s sampler. '
+        'Tie: gen_symbols_samples with scripted draws on random DAGs/chains/diamonds/cyclic/dangling/shadowing configurations in all or random declaration orders, compared exactly (values and insertion order) with the model driven through the model\'s own parser/evaluator; '
+        'generate_variable_list and recorded samples of real FormulaGrader/ListGrader calls; independent topological-evaluation oracle; every call under a wall-clock alarm.',
+   note=PROOF_NOTE + ' compute_sample (the evaluator) is a parameter with the contract Local (reads only its declared dependencies), justified by C10 usage_exact; float evaluation of dependent formulas is exact only on the dyadic polynomial formulas the generators use.',
+   technique='Lean 4 proof (invariants of the sweep/resolve loop, least-solution argument for order independence) + exact correspondence + topological oracle', design='§6 C13'),
  'C11': dict(
    text='ItemGrader.__call__ / AbstractGrader.__call__ modelled as a state machine over the grader object (stored answers, inferring flag, log flag, debug log) with validation, text check and grading as parameters; proved by induction over ANY call history '
         '(including calls that raise in validation, in the input check or in grading): the next call returns what a freshly constructed grader returns for the current expect value or the last successfully supplied one; '
